@@ -76,7 +76,8 @@ C04StepChecks(k, e, s, t, gb) ==
          Out(a, d) == SumOver({i \in DOMAIN E : E[i].recipient = a /\ E[i].out_denom = d}, LAMBDA i : E[i].out_amt)
          In(a, d)  == SumOver({i \in DOMAIN E : E[i].sender = a /\ E[i].in_denom = d}, LAMBDA i : E[i].in_amt)
          \* (the staking end blocker pays matured unbondings back to their delegator in the same step: not on a request's behalf)
-         Unbonded(a, d) == SumOver({i \in DOMAIN e.abci : e.abci[i].type = "complete_unbonding" /\ e.abci[i].delegator = a /\ e.abci[i].denom = d},
+         \* and distribution pays a delegator's pending rewards whenever estaking's end blocker changes its delegation
+         Unbonded(a, d) == SumOver({i \in DOMAIN e.abci : e.abci[i].type \in {"complete_unbonding", "withdraw_rewards"} /\ e.abci[i].delegator = a /\ e.abci[i].denom = d},
                                    LAMBDA i : e.abci[i].amt)
          Bonus(a, d) == (DBal(s, t, a, d) -- Unbonded(a, d)) -- (Out(a, d) -- In(a, d))
          OracleRcpt(a, d) == \E i \in DOMAIN E : E[i].recipient = a /\ E[i].out_denom = d
